@@ -88,6 +88,17 @@ Example C06_nonvacuous :
   accepts input false [VStr Owned "b"; VInt 3; VSeq Newtype [VInt 7]] = false.
 Proof. vm_compute. repeat split. Qed.
 
+(* eq!(o) / ne!(o) are `value == o` / `value != o`, and `!=` is PartialEq::ne - user code that need not be the negation of eq
+   (the harness struct S overrides it: it looks at the first field only).  Both the spec (Spec/RustMatch.v pos_compare) and the
+   model of the expansion (Macro/Matching.v matom_eval, run_diag) compare through [vcmp]; here a pair of values for which
+   neither `==` nor `!=` holds, so that `!(a == b)` would be the wrong rendering of ne! *)
+Example C06_ne_is_user_code :
+  let a := VCtor "S" [VInt 3; VBool false] in
+  let b := VCtor "S" [VInt 3; VBool true] in
+  vcmp false a b = false /\ vcmp true a b = false /\ negb (vcmp false a b) = true /\
+  pos_compare (PCmp true b) a = false.
+Proof. vm_compute. repeat split; reflexivity. Qed.
+
 (* runtime half ("the accept/reject decision is the same whether or not mismatch diagnostics are collected", and a Rust match
    does not evaluate the guards of later arms): which matchers the runtime consults for a call, and when it collects
    diagnostics.  Unordered: the patterns up to and including the answering one, once each, without diagnostics; if all reject,
